@@ -22,7 +22,7 @@ ASSUMPTIONS = [
 ]
 
 
-from util import J, boxed, chk_tt, sdiv_inexact_cases
+from util import J, boxed, chk_tt, sdiv_inexact_cases, scalar_inexact_cases
 
 
 def tdt_of(dtype):
@@ -103,6 +103,7 @@ def run(res, rng, tier, known):
                                           chk_tt(box, lambda dx=dx, qe=qe: dx / qe, dt, Rx, N),
                                           "sdiv/%s/%s" % (kname, tag), True))
             cases += sdiv_inexact_cases(rng, x, dt, tag, 2 if tier == "quick" else 6)
+            cases += scalar_inexact_cases(rng, x, dt, tag, 3 if tier == "quick" else 8)
             # numpy integer / float32 scalars in `*` (accepted by `+`)
             if si % 4 == 0:
                 for kname, sval in (("npint64", np.int64(3)), ("npfloat32", np.float32(2.0))):
